@@ -26,7 +26,7 @@ class Ctx:
         self.corr_broken = []      # descriptions
         self.checker_cmds = []
         self._distinct = set()
-        self.findings = [f for f in json.load(open(os.path.join(C.ROOT, "known_findings.json")))["findings"]]
+        self.findings = list(json.load(open(os.path.join(C.ROOT, "known_findings.json")))["findings"])
         self.replay_dir = os.path.join(C.ROOT, "replays", pid)
         self.notes = []
         self._vsig = {}
@@ -96,7 +96,7 @@ class Ctx:
                     if bad:
                         self.proof_broken.append("theorem %s uses axioms %s" % (t, bad))
             if self.tier == "thorough":
-                with C.Lock("lake"):
+                with C.lake_lock():
                     rc3, o3, e3 = C.sh(["lake", "env", "leanchecker", module], timeout=1800, cwd=C.LEAN)
                 self.checker_cmds.append("lake env leanchecker " + module)
                 self.obligation("leanchecker " + module, rc3 == 0, (o3 + e3).decode(errors="replace")[-500:])
